@@ -315,14 +315,14 @@ Definition push_response (r : response) (s : mstate) : mstate :=
 
 (* ------------------------------------------------------------------ accept / drain *)
 (* do_accept(match): run every pending response in order; capture text is cut out of match() *)
-Fixpoint run_responses (m : list N) (rs : list response) (s : mstate) : option mstate :=
+Fixpoint run_responses (m : list N) (rs : list response) (s : mstate) : bool * mstate :=
   match rs with
-  | [] => Some s
+  | [] => (true, s)
   | r :: rest =>
       match r_kind r with
       | RAct id => run_responses m rest (add_log (EvAction id (r_depth r)) s)
       | RCap id start size =>
-          if lenN m <? start then None                                   (* string_view::substr throws std::out_of_range *)
+          if lenN m <? start then (false, s)                             (* string_view::substr throws std::out_of_range *)
           else let text := firstnN size (skipnN start m) in
                run_responses m rest (add_log (EvCapture id (r_depth r) start (lenN text) text) s)
       end
@@ -330,10 +330,8 @@ Fixpoint run_responses (m : list N) (rs : list response) (s : mstate) : option m
 
 Definition do_accept (s : mstate) : result :=
   let m := firstnN (sr s) (buf s) in
-  match run_responses m (resp s) s with
-  | Some s1 => Running (upd_rc 0 (upd_resp [] s1))
-  | None => Stuck OutOfRange (upd_rc 0 (upd_resp [] s))
-  end.
+  let '(ok, s1) := run_responses m (resp s) s in
+  if ok then Running (upd_rc 0 (upd_resp [] s1)) else Stuck OutOfRange (upd_rc 0 (upd_resp [] s1)).
 
 Definition tombstone (cur : N) (f : frame) : frame :=
   match f with
